@@ -51,7 +51,15 @@ def k1(ctx, kr):
         if method == 'decode_with_bom_removal': return Agg('()', [Str(text), bad])
         if method == 'decode_without_bom_handling': return Agg('()', [Str(text), bad])
         raise Unsupported('encoding_rs method ' + method)
-    M = Machine(P, stubs={r'^std::fs::read(::<.*>)?$': st_read, r'^encoding_rs::Encoding::decode': st_decode, r'^encoding_rs::Encoding::name$': lambda M_, fr, c, a: Ref(Cell(Str('enc'))),
+    def st_from_utf8(M, fr, callee, a):
+        # String::from_utf8 / str::from_utf8 over the abstract file: Ok(text as stored, a BOM stays a character) iff the stored bytes are UTF-8
+        st['used'].append(('from_utf8', 'no BOM handling'))
+        if st['enc'] == 'utf8': return ok(Str('T'))
+        if st['enc'] == 'utf8-bom': return ok(Str('\ufeffT'))
+        return err(Agg('FromUtf8Error', [a[0]]))
+    def st_into_bytes(M, fr, callee, a): return a[0].f[0]
+    M = Machine(P, stubs={r'^std::fs::read(::<.*>)?$': st_read, r'^std::string::String::from_utf8$|^std::str::from_utf8$|^core::str::from_utf8$': st_from_utf8,
+                          r'^std::string::FromUtf8Error::into_bytes$': st_into_bytes, r'^std::string::String::from_utf8_lossy$': lambda M_, fr, c, a: (_ for _ in ()).throw(Unsupported('from_utf8_lossy over an abstract file')), r'^encoding_rs::Encoding::decode': st_decode, r'^encoding_rs::Encoding::name$': lambda M_, fr, c, a: Ref(Cell(Str('enc'))),
                           r'^source::diagnostic$': lambda M_, fr, c, a: Agg('Diagnostic', [Str('problem:%d' % M_.deref(a[0]).disc if isinstance(M_.deref(a[0]), EnumV) else 'problem')]),
                           r'^<std::io::Error as std::string::ToString>::to_string$': lambda M_, fr, c, a: Str('io error')})
     def entry(M):
@@ -80,7 +88,7 @@ def k1(ctx, kr):
     M.explore(entry, on_path)
     kr.queries += M.stats['smt']
     kr.functions = fn_paths(P, M.encoded); kr.models = sorted(M.models_used)
-    kr.stubs = ['std::fs::read -> Ok(bytes) / Err', 'encoding_rs::Encoding::{decode, decode_with_bom_removal, decode_without_bom_handling} by documented contract over abstract files (stored encoding x text with a non-ASCII character)']
+    kr.stubs = ['std::fs::read -> Ok(bytes) / Err', 'String::from_utf8 / str::from_utf8 by contract over the abstract file (no BOM handling)', 'encoding_rs::Encoding::{decode, decode_with_bom_removal, decode_without_bom_handling} by documented contract over abstract files (stored encoding x text with a non-ASCII character)']
     kr.bounds = 'stored encoding in %s; file readable or not' % ENCODINGS
     kr.exhaustive = True
     kr.outside = ['correctness of encoding_rs itself; UTF-16 without BOM']
